@@ -54,7 +54,8 @@ add("C06", "other",
 add("C07", "other",
     "Proved: the `supports` of the triangular bank and of Fbank give one integer pair per filter with left < 0 < right (straddle sample 0), the two "
     "sides differing by at most one sample, and the support formula is well defined (no division by zero, roots and fractional powers of "
-    "positive numbers only) for every increasing vertex sequence. Everything else of the property is numerical Fourier analysis (inverse DFT "
+    "positive numbers only) for every increasing vertex sequence; the gammatone bank's temporal support starts at the floor of the filter's onset, "
+    "i.e. at sample 0 for causal (not max_centered) banks, whatever the Newton iteration for its right end yields. Everything else of the property is numerical Fourier analysis (inverse DFT "
     "vs impulse response within 2 x threshold, tail magnitudes outside the advertised supports, realness) and is decided by the bounded "
     "stand-in on the statement's exact domain, including the library's default configurations." + MIX, TB)
 add("C08", "other",
